@@ -39,7 +39,7 @@ from pymbolic.mapper.constant_folder import (
 
 from pbt import c11_gen as G, strategies as S, walk
 from pbt.envs import build_env
-from pbt.polynf import Converter, NotRational
+from pbt.polynf import Converter as _BaseConverter, NotRational
 from pbt.refsem import (MAX_EXP, RefError, RefEvaluator, RefSkip, _apply, describe, exc_site,
                         values_agree, values_close)
 from pbt.runner import Result
@@ -82,10 +82,24 @@ ASSUMPTIONS = [
 HEALTH = {"flatten:nontrivial": 0.06, "fold:two-constants": 0.06, "collect:like-terms": 0.03,
           "expand:nontrivial": 0.05, "pairs:nontrivial": 0.015, "dom:evaluable": 0.08,
           "mixed-type-constants": 0.08}
-CASE_TIMEOUT_S = 20
+CASE_TIMEOUT_S = 10
 TIMEOUT_IS_FAIL = False
 
 NUMBER = (int, float, complex, np.number, np.bool_, Fraction)
+MAX_POW = 64
+
+
+class Converter(_BaseConverter):
+    """pbt.polynf.Converter reads integer powers up to 12 and takes larger ones as opaque;
+    expansions multiply exponents out ((x**5)**3 -> x**15), so read them up to 64."""
+
+    def __call__(self, e):
+        if type(e) is p.Power:
+            ex = e.exponent
+            if isinstance(ex, (int, np.integer)) and not isinstance(ex, bool) \
+                    and 12 < abs(int(ex)) <= MAX_POW:
+                return self(e.base) ** int(ex)
+        return super().__call__(e)
 
 
 def _is_num(x):
@@ -177,7 +191,7 @@ def _is_rational_tree(e):
         return _is_rational_tree(e.numerator) and _is_rational_tree(e.denominator)
     if t == "Power":
         ex = e.exponent
-        if isinstance(ex, int) and not isinstance(ex, bool) and abs(ex) <= 12:
+        if isinstance(ex, int) and not isinstance(ex, bool) and abs(ex) <= MAX_POW:
             return _is_rational_tree(e.base)
         # symbolic exponents: the collector adds them up (x*x**k -> x**(1+k)), so such a
         # power is no indeterminate; judged by the reference interpreter only
@@ -638,7 +652,7 @@ def _is_poly_tree(e):
         return all(_is_poly_tree(c) for c in e.children)
     if t == "Power":
         return isinstance(e.exponent, int) and not isinstance(e.exponent, bool) \
-            and 0 <= e.exponent <= 12 and _is_poly_tree(e.base)
+            and 0 <= e.exponent <= MAX_POW and _is_poly_tree(e.base)
     return False
 
 
@@ -756,12 +770,13 @@ def check_pairs(spec):
         raise
     except Exception as exc:
         raise HarnessError(f"cannot build spec: {exc!r}") from None
-    if not (_is_poly_tree(a) and _is_poly_tree(b)):
-        raise HarnessError("pair sides must be POLY trees")
-    if _has_float(a, b):
-        raise HarnessError("pair sides must have integer constants")
+    if not (_is_poly_tree(a) and _is_poly_tree(b)) or _has_float(a, b):
+        return res.skip("pair-side-not-an-integer-POLY-tree")
     conv = Converter(opaque=False)
-    pa, pb = conv(a).as_poly(), conv(b).as_poly()
+    try:
+        pa, pb = conv(a).as_poly(), conv(b).as_poly()
+    except (ZeroDivisionError, NotRational):
+        return res.skip("pair-side-without-normal-form")
     if pa != pb:
         raise HarnessError(f"pair transformation changed the polynomial: {a!r} vs {b!r}")
     outs = []
@@ -1102,11 +1117,11 @@ def generate(ctx):
     ctx.run_given(tree_case(),
                   lambda s: (ctx.judge("flatten", s), ctx.judge("fold", s),
                              ctx.judge("cfold", s)),
-                  ctx.n(2200, 90000))
-    ctx.run_given(helper_case(), lambda s: ctx.judge("helpers", s), ctx.n(1200, 50000))
-    ctx.run_given(collect_case(), lambda s: ctx.judge("collect", s), ctx.n(2200, 90000))
-    ctx.run_given(expand_case(), lambda s: ctx.judge("expand", s), ctx.n(3000, 120000))
-    ctx.run_given(pair_case(), lambda s: ctx.judge("pairs", s), ctx.n(2400, 100000))
+                  ctx.n(2200, 70000))
+    ctx.run_given(helper_case(), lambda s: ctx.judge("helpers", s), ctx.n(1200, 40000))
+    ctx.run_given(collect_case(), lambda s: ctx.judge("collect", s), ctx.n(2200, 70000))
+    ctx.run_given(expand_case(), lambda s: ctx.judge("expand", s), ctx.n(3000, 100000))
+    ctx.run_given(pair_case(), lambda s: ctx.judge("pairs", s), ctx.n(2400, 80000))
 
 # }}}
 
